@@ -118,17 +118,19 @@ type gmWalk struct {
 	dials  map[string]int
 	dialN  int
 	failAt int // fail the k-th dial (absolute count); 0 = never
-	conns  map[string][]*grpc.ClientConn
-	order  []string            // dial log
-	mes    map[string][]string // model
-	def    string
-	gme    *GCPMultiEndpoint
-	log    []string
-	viol   *vViol
-	hits   map[string]int64
-	incon  int64
-	dirty  bool
-	idx    int64
+	// runs inside the failing dial, i.e. while UpdateMultiEndpoints is in progress
+	dialHook func()
+	conns    map[string][]*grpc.ClientConn
+	order    []string            // dial log
+	mes      map[string][]string // model
+	def      string
+	gme      *GCPMultiEndpoint
+	log      []string
+	viol     *vViol
+	hits     map[string]int64
+	incon    int64
+	dirty    bool
+	idx      int64
 	// endpoints dialled by a rejected update (C16)
 	rolledBack []string
 	slowDial   bool
@@ -172,9 +174,13 @@ func (w *gmWalk) dialFunc(ctx context.Context, target string, dopts ...grpc.Dial
 	fail := w.failAt != 0 && n == w.failAt
 	w.order = append(w.order, target)
 	slow := w.slowDial
+	hook := w.dialHook
 	w.dialMu.Unlock()
 	if slow {
 		time.Sleep(3 * time.Millisecond)
+	}
+	if fail && hook != nil {
+		hook()
 	}
 	if fail {
 		return nil, fmt.Errorf("verif: injected dial failure for %s", target)
@@ -622,6 +628,89 @@ func (w *gmWalk) update() {
 	w.checkPools("after update")
 }
 
+// flipDuringRejectedUpdate: an endpoint's pool loses or regains connectivity
+// while UpdateMultiEndpoints is in progress (inside a slow dial) and that
+// update is then rejected (the dial fails). Routing must follow the new
+// connectivity within bounded time all the same.
+func (w *gmWalk) flipDuringRejectedUpdate() {
+	ment := w.mentioned()
+	var fresh, cand []string
+	for _, e := range gmEPNames {
+		if !ment[e] {
+			fresh = append(fresh, e)
+		} else if w.openConn(e) != nil {
+			cand = append(cand, e)
+		}
+	}
+	if len(fresh) == 0 || len(cand) == 0 {
+		w.hit("C15.flip-during-update-skipped")
+		return
+	}
+	if !w.settle() {
+		w.incon++
+		w.say("inconclusive: pools did not settle")
+		return
+	}
+	e := cand[w.rng.Intn(len(cand))]
+	o := &GCPMultiEndpointOptions{GRPCgcpConfig: &pb.ApiConfig{}, MultiEndpoints: map[string]*multiendpoint.MultiEndpointOptions{}, Default: w.def, DialFunc: w.dialFunc}
+	for n, l := range w.mes {
+		o.MultiEndpoints[n] = gmMeo(l...)
+	}
+	o.MultiEndpoints["zz-fresh"] = gmMeo(fresh[0])
+	w.say("update %s whose dial of %s fails; meanwhile endpoint %s goes %s", gmDescribe(o), fresh[0], e, map[bool]string{true: "down", false: "up"}[w.up[e]])
+	observed := false
+	w.dialMu.Lock()
+	w.failAt = w.dialN + 1
+	w.dialHook = func() {
+		c := w.openConn(e)
+		if w.up[e] {
+			w.eps[e].stop()
+			w.up[e] = false
+		} else {
+			w.eps[e].start()
+			w.up[e] = true
+		}
+		for t0 := time.Now(); c != nil && time.Since(t0) < 10*time.Second; time.Sleep(2 * time.Millisecond) {
+			if (c.GetState() == connectivity.Ready) == w.up[e] {
+				observed = true
+				break
+			}
+			if w.up[e] {
+				c.Connect()
+			}
+		}
+		// the pool's monitor has seen the change by now and is informing the MultiEndpoints
+		time.Sleep(200 * time.Millisecond)
+	}
+	w.dialMu.Unlock()
+	err := w.gme.UpdateMultiEndpoints(o)
+	w.dialMu.Lock()
+	w.failAt = 0
+	w.dialHook = nil
+	w.dialMu.Unlock()
+	w.dirty = true
+	if err == nil {
+		// (whether this update is rejected is C16's business)
+		w.setModel(o)
+		w.say("  -> accepted")
+		return
+	}
+	w.say("  -> rejected: %v", err)
+	if !observed {
+		w.incon++
+		w.say("inconclusive: the pool's state did not change during the update")
+		return
+	}
+	if !w.settle() {
+		w.incon++
+		w.say("inconclusive: pools did not settle")
+		return
+	}
+	w.dirty = false
+	w.hit("C15.flip-during-rejected-update")
+	w.checkRouting("after a connectivity change during a rejected update")
+}
+
 func (w *gmWalk) closeAndCheck(baseline int) {
 	if w.rng.Intn(3) == 0 {
 		// the application closed one pool's ClientConn itself (it got it from its
@@ -694,8 +783,10 @@ func gmRunWalk(rng *vRand, idx int64, nOps int) *gmWalk {
 	w.checkPools("after construction")
 	for i := 0; i < nOps && w.viol == nil; i++ {
 		switch x := w.rng.Intn(10); {
-		case x < 3:
+		case x < 2:
 			w.update()
+		case x < 3:
+			w.flipDuringRejectedUpdate()
 		case x < 6:
 			e := gmEPNames[w.rng.Intn(len(gmEPNames))]
 			w.dirty = true
@@ -787,6 +878,28 @@ func (w *gmWalk) mutate16(b gmBad) *GCPMultiEndpointOptions {
 		for _, n := range names {
 			if n != w.def {
 				o.Default = n
+				break
+			}
+		}
+	}
+	if b.kind != "valid" && b.kind != "default-removed" && len(names) > 1 && w.rng.Intn(2) == 0 {
+		// an invalid update that also drops a MultiEndpoint: after the rejection
+		// RPCs naming it (or using it as the default) are routed as before
+		drop := names[w.rng.Intn(len(names))]
+		if drop == o.Default {
+			for _, n := range names {
+				if n != drop {
+					o.Default = n
+					break
+				}
+			}
+		}
+		delete(o.MultiEndpoints, drop)
+		w.hit("C16.invalid-update-drops-me")
+		names = append([]string{}, names...)
+		for i, n := range names {
+			if n == drop {
+				names = append(names[:i], names[i+1:]...)
 				break
 			}
 		}
